@@ -19,8 +19,16 @@ func (m *Message) SkipClassAdRaw(ctx context.Context) error {
 		return fmt.Errorf("failed to read expression count: %w", err)
 	}
 	for i := 0; i < numExprs; i++ {
-		if err := m.SkipString(ctx); err != nil {
+		isMarker, err := m.skipStringMatching(ctx, SecretMarker)
+		if err != nil {
 			return fmt.Errorf("failed to skip expression %d (expected %d): %w", i, numExprs, err)
+		}
+		// A SecretMarker is followed by the real expression as a put_secret field
+		// (two wire items, one counted expression -- see GetClassAdRawBody).
+		if isMarker {
+			if err := m.skipSecretString(ctx); err != nil {
+				return fmt.Errorf("failed to skip secret expression %d (expected %d): %w", i, numExprs, err)
+			}
 		}
 	}
 	if err := m.SkipString(ctx); err != nil {
@@ -76,4 +84,54 @@ func (m *Message) discard(ctx context.Context, n int) error {
 		n -= take
 	}
 	return nil
+}
+
+// skipStringMatching skips one CEDAR string like SkipString and reports whether
+// its value was exactly want, without allocating the value.
+func (m *Message) skipStringMatching(ctx context.Context, want string) (bool, error) {
+	if m.stream.IsEncrypted() {
+		length, err := m.GetInt32(ctx)
+		if err != nil {
+			return false, err
+		}
+		if int(length) != len(want)+1 {
+			return false, m.discard(ctx, int(length))
+		}
+		data, err := m.GetBytes(ctx, int(length))
+		if err != nil {
+			return false, err
+		}
+		return string(data[:len(want)]) == want && data[len(want)] == 0, nil
+	}
+	match := true
+	n := 0
+	for {
+		if err := m.ensureData(ctx, 1); err != nil {
+			if err == io.EOF {
+				return match && n == len(want), nil
+			}
+			return false, err
+		}
+		b, err := m.buffer.ReadByte()
+		if err != nil {
+			return false, err
+		}
+		if b == 0 {
+			return match && n == len(want), nil
+		}
+		if n >= len(want) || want[n] != b {
+			match = false
+		}
+		n++
+	}
+}
+
+// skipSecretString skips a put_secret field, adopting the sender's
+// crypto-for-secret state exactly as getSecretString does.
+func (m *Message) skipSecretString(ctx context.Context) error {
+	if sc, ok := m.stream.(secretCrypto); ok {
+		sc.PrepareCryptoForSecret()
+		defer sc.RestoreCryptoAfterSecret()
+	}
+	return m.SkipString(ctx)
 }
